@@ -84,9 +84,9 @@ def run(ctx, only):
         ctx.diag.append("validout: the extracted validator rejects %d of %d outputs of the real %s whose inputs satisfy the theorem's hypotheses (conclusion of Props/*Valid.v not observed), first: %s"
                         % (rejected, expected, WHAT.get(only, only), json.dumps(first)))
     errs = stats.get(only + ":error", 0)
-    if only != "segment" and errs:
-        # SegmentFile fails legitimately on the known finding segment:batch-number-collision; the other
-        # transformations must succeed on the generated inputs (they validate their own result)
+    if errs:
+        # the transformations validate their own result: an error on a generated valid input means the result
+        # did not pass (SegmentFile's known finding segment:batch-number-collision is counted separately)
         ctx.diag.append("validout: the real %s returned an error on %d generated valid input(s) on which the unchanged tree succeeds" % (WHAT.get(only, only), errs))
     if expected == 0:
         ctx.diag.append("validout: no output of the real %s qualified for the theorem's hypotheses (vacuous run)" % WHAT.get(only, only))
